@@ -820,7 +820,7 @@ def hashseed_violation(seeds=(0, 1, 2, 3, 4, 5)):
         "out = {}\n"
         "for name, doc, cfg in (('models', mf.document('3.1.0')[0], {}), ('models-lit', mf.document('3.0.3')[0], {'literal_enums': True}),\n"
         "                       ('endpoints', ef.document('3.0.3')[0], {}), ('slots', sites.slot_document(), {}),\n"
-        "                       ('determinism', det.determinism_document(), {}), ('determinism-lit', det.determinism_document(), {'literal_enums': True})):\n"
+        "                       ('determinism', det.determinism_document(), {}), ('determinism-lit', det.determinism_document(True), {'literal_enums': True})):\n"
         "    import contextlib, io\n"
         "    with contextlib.redirect_stdout(io.StringIO()):\n"
         "        errors, o, files, tmp = generate_tree(document=doc, config=cfg)\n"
